@@ -9,7 +9,7 @@ import itertools
 
 from hypothesis import strategies as st
 
-from vlib.core import Sub, req, sut
+from vlib.core import fuzz_variant, Sub, req, sut
 
 PROPERTY = "C12"
 RULE = ("exhaustive: all reference multisets (<=3/4 labels on 0..6/0..8), query multisets (<=2/3 labels), maxDistance 0..2, "
@@ -206,10 +206,13 @@ def random_case(draw):
 
 def subchecks(tier):
     q = tier == "quick"
-    return [
+    subs = [
         Sub("lattice", "enum", check, enumerate=enum_lattice(5, 3, 4, 2) if q else enum_lattice(7, 4, 6, 3), exhaustive=True,
             describe="all small label multisets x maxDistance x seed offset x strand x shift", time_budget_s=3000),
         Sub("random", "hyp", check, strategy=random_case, examples=40000 if q else 800000, shrink_budget=1500,
             describe="integer and one-decimal coordinates with planted boundary labels",
             required_classes=("tie", "coincident", "at-boundary", "empty-window", "rev", "shift")),
     ]
+    if not q:
+        subs.append(fuzz_variant(next(s for s in subs if s.name == "random"), 80000))
+    return subs
